@@ -183,6 +183,21 @@ def gen(rng, tier):
         fs = rand_fields(rng, k)
         n = len(render(b"POST", b"/x", fs))
         cs.append(mk(cap_for(n), b"POST", b"/x", fs, b"", ["fields-%d" % k]))
+    # --- request level (cap 8192 only: read_http_request uses the connection's 8 KiB buffer): heads with 0..12 fields in
+    #     random order containing 0..3 of the fields the library consumes (content-type, expect, transfer-encoding; any
+    #     letter case, also repeated) and framing / cookie fields; the request must expose the head's fields in the order sent
+    cons = [(b"content-type", b"text/plain"), (b"Content-Type", b"application/json"), (b"CONTENT-TYPE", b"a/b"),
+            (b"expect", b"100-continue"), (b"Expect", b"other"), (b"transfer-encoding", b"gzip"),
+            (b"Transfer-Encoding", b"chunked"), (b"transfer-encoding", b"gzip, chunked"), (b"transfer-encoding", b"identity")]
+    other = [(b"host", b"h"), (b"Via", b"1.1 a"), (b"via", b"1.1 b"), (b"x-a", b"1"), (b"X-A", b"2"), (b"accept", b"*/*"),
+             (b"content-length", b"0"), (b"content-length", b"5"), (b"cookie", b"a=b"), (b"Cookie", b"c=d; e=f"), (b"cookie", b"bad")]
+    for _ in range(2500 if not big else 60000):
+        k = rng.randint(0, 12)
+        fs = []
+        for _ in range(k):
+            n, v = rng.choice(cons) if rng.random() < 0.35 else rng.choice(other)
+            fs.append((n, rng.choice(OWS), v, rng.choice(OWS)))
+        cs.append(mk(8192, rng.choice([b"GET", b"POST", b"PUT", b"DELETE"]), canonical_target(rng), fs, rng.choice([b"", b"X"]), ["request-level"]))
     # --- targets
     for t in NONCANONICAL:
         cs.append(mk(200, b"GET", t, [(b"H", b" ", b"v", b"")], b"", ["target-noncanonical"]))
